@@ -1,6 +1,7 @@
 package rules
 
 import (
+	"strings"
 	"fmt"
 	"go/constant"
 
@@ -45,6 +46,7 @@ func c13(c *Ctx) {
 	r.Rule("C13.ascii-only", "equalASCIIFold calls nothing but utf8.DecodeRuneInString; for every rune pair of the evaluation domain (all runes < U+0180 (quick) / < U+0300 (thorough), plus U+212A KELVIN, U+017F, full-width letters, ...) an iteration continues iff the runes are equal after mapping A-Z to a-z only; the function returns true only through the final s == t on the remainders; both strings advance by the decoded sizes")
 	r.Assume("net/url.Parse puts the authority's host[:port] (without userinfo) into URL.Host")
 
+	originOnlyInPolicy(c, u, "C13.fallback")
 	u.originFallback("C13.fallback")
 	u.chainOnly("C13.fallback", "origin")
 
@@ -282,4 +284,43 @@ func c13sameOrigin(c *Ctx, u *upgA, rule string) {
 		}
 	})
 	r.Check(rule, shortFn(fn), "true-only-if-absent-or-fold-equal", fn.Pos(), ok && nTrue > 0 && nFold > 0, why)
+}
+
+// originOnlyInPolicy: the Origin header is judged by the policy function
+// (CheckOrigin / checkSameOrigin) alone; Upgrade itself does not read it, so
+// every origin refusal is the 403 of the policy branch.
+func originOnlyInPolicy(c *Ctx, u *upgA, rule string) {
+	fns := []*ssa.Function{u.upgrade}
+	for callee := range c.P.Mod(u.upgrade).Callees {
+		if c.isNewHelper(callee, 1) {
+			fns = append(fns, callee)
+		}
+	}
+	bad := ""
+	for _, fn := range fns {
+		for _, b := range fn.Blocks {
+			for _, in := range b.Instrs {
+				var key ssa.Value
+				switch v := in.(type) {
+				case *ssa.Lookup:
+					key = v.Index
+				case ssa.CallInstruction:
+					if f := v.Common().StaticCallee(); f != nil && len(v.Common().Args) == 2 {
+						switch extName(f) {
+						case "(net/http.Header).Get", "(net/http.Header).Values":
+							key = v.Common().Args[1]
+						}
+					}
+				}
+				if k, isC := key.(*ssa.Const); isC && k.Value != nil && k.Value.Kind() == constant.String && strings.EqualFold(constant.StringVal(k.Value), "Origin") {
+					bad = c.P.Pos(in.Pos())
+				}
+			}
+		}
+	}
+	why := "Upgrade does not read the Origin header itself"
+	if bad != "" {
+		why = "Upgrade reads the Origin header itself at " + bad + ": an origin it refuses there does not get the policy's 403 (or is admitted without the policy having seen it)"
+	}
+	c.R.Check(rule, shortFn(u.upgrade), "origin-judged-by-policy-only", u.upgrade.Pos(), bad == "", why)
 }
